@@ -608,6 +608,15 @@ pub fn sparse_regimes(rng: &mut Rng, thorough: bool) -> Vec<(String, usize, Runs
     runs.extend((0..30).map(|i| (1000 + 97 * i, 1 + i % 3)));
     runs.push((7000, 500));
     out.push(("E3.mixed".to_string(), 7500, normalize(7500, runs)));
+    // E5: layouts that make the select structures of the `high` bitvector use long superblocks:
+    // two clusters of ones separated by a huge gap (high.select), and a fully dense region of more than
+    // 4096 buckets inside an otherwise sparse vector (high.select_zero).
+    let n = 1usize << 30;
+    out.push(("E5.clusters".to_string(), n, vec![(1000, 50_000), (n - 60_000, 50_000)]));
+    let n = 1usize << 27;
+    let mut runs: Runs = vec![(1 << 25, 540_000)];
+    runs.extend(random_positions(rng, n, 30));
+    out.push(("E5.denseregion".to_string(), n, normalize(n, runs)));
     // E4: empty and full.
     for n in [0usize, 1, 64, 5000, if thorough { 1 << 24 } else { 1 << 20 }] {
         out.push((format!("E4.empty{}", n), n, Vec::new()));
